@@ -18,6 +18,7 @@ pub mod c15;
 pub mod c16;
 pub mod c17;
 pub mod c18;
+pub mod c19;
 pub mod c20;
 
 pub fn all() -> Vec<&'static dyn Property> {
@@ -40,6 +41,7 @@ pub fn all() -> Vec<&'static dyn Property> {
         &c16::C16,
         &c17::C17,
         &c18::C18,
+        &c19::C19,
         &c20::C20,
     ]
 }
